@@ -4,8 +4,9 @@ line events, including the defaultdict factory lambda) and enumerates schedules 
 Run-time contract per schedule: every published message is delivered exactly once (received by the subscriber or still queued
 and found by a final single-threaded drain) - never lost, never duplicated; messages of one publisher on one channel arrive in
 publication order; the subscription only yields channels matching its pattern.
-Bound: 5 scenarios (2 publishers on one not-yet-existing channel / existing channel / exact-name subscriber / matching + non-matching channel /
-2 publishers + wildcard over two channels), 1 subscriber draining twice, preemption bound 2 (thorough 3), at most 600 (thorough
+Bound: 7 scenarios (2 publishers on one not-yet-existing channel / existing channel / exact-name subscriber / matching + non-matching channel /
+2 publishers + wildcard over two channels, 1 subscriber draining twice; 2 subscribers with overlapping patterns on a pre-filled channel, with and
+without a publisher), preemption bound 2 (thorough 3), at most 600 (thorough
 6000) schedules per scenario, fewest preemptions first."""
 import json, sys, threading, time, logging
 logging.disable(logging.CRITICAL)
@@ -164,15 +165,18 @@ def explore(name, make, check, preempt_bound, max_schedules):
     return seen
 
 
-def scenario(pubs, pattern, pre_existing=()):
-    """pubs: list of lists of (channel, label) per publisher thread"""
+def scenario(pubs, pattern, pre_existing=(), prefill=(), more_subscribers=()):
+    """pubs: list of lists of (channel, label) per publisher thread; prefill: messages already queued when the threads start;
+    more_subscribers: patterns of further consumer threads (each drains once)"""
     def make():
         t = InMemorySemantivaTransport()
         for ch in pre_existing:
             t.publish(ch, data="warm", context=ContextType({}))
             for _ in t.subscribe(ch):
                 pass
-        received = []
+        for ch, label in prefill:
+            t.publish(ch, data=label, context=ContextType({}), metadata={"ch": ch})
+        received, per_consumer = [], {}
 
         def publisher(msgs):
             def f():
@@ -181,20 +185,29 @@ def scenario(pubs, pattern, pre_existing=()):
             return f
 
         def subscriber():
-            for _ in range(2):
+            for _ in range(2 if not more_subscribers else 1):
                 for m in t.subscribe(pattern):
                     received.append((m.metadata.get("ch"), m.data))
+
+        def other(pat):
+            mine = per_consumer.setdefault(pat, [])
+
+            def f():
+                for m in t.subscribe(pat):
+                    mine.append((m.metadata.get("ch"), m.data))
+            return f
 
         def finish():
             rest = []
             for m in t.subscribe("*"):
                 rest.append((m.metadata.get("ch"), m.data))
-            return received, rest
-        return [publisher(p) for p in pubs] + [subscriber], finish
-    published = [(ch, label) for p in pubs for ch, label in p]
+            return [received] + list(per_consumer.values()), rest
+        return [publisher(p) for p in pubs] + [subscriber] + [other(p_) for p_ in more_subscribers], finish
+    published = [(ch, label) for p in pubs for ch, label in p] + list(prefill)
 
     def check(result, errors):
-        received, rest = result
+        consumers, rest = result
+        received = [m for c_ in consumers for m in c_]
         if errors:
             return {"class": "thread-raised-or-deadlocked", "errors": errors[:2]}
         allm = received + rest
@@ -204,15 +217,18 @@ def scenario(pubs, pattern, pre_existing=()):
             return {"class": "message-lost", "lost": lost, "received": received, "still_queued": rest}
         if len(allm) != len(set(allm)) or len(allm) != len(published):
             return {"class": "message-duplicated", "all": allm}
-        bad = [m for m in received if not fnmatch(m[0], pattern)]
+        bad = [m for m in received if not any(fnmatch(m[0], p_) for p_ in (pattern,) + tuple(more_subscribers))]
         if bad:
             return {"class": "subscription-yielded-a-non-matching-channel", "got": bad}
-        for p in pubs:
+        # order: what ONE consumer received (followed, for a single consumer, by what was still queued) from one publisher on one
+        # channel is in publication order; with several consumers only each consumer's own sequence is ordered
+        for p in pubs + ([list(prefill)] if prefill else []):
             for ch in {c for c, _ in p}:
                 want = [l for c, l in p if c == ch]
-                got = [l for c, l in allm if c == ch and l in want]
-                if got != want:
-                    return {"class": "per-publisher-channel-order-violated", "want": want, "got": got}
+                for seq in ([consumers[0] + rest] if len(consumers) == 1 else consumers):
+                    got = [l for c, l in seq if c == ch and l in want]
+                    if got != [l for l in want if l in got]:
+                        return {"class": "per-publisher-channel-order-violated", "want": want, "got": got}
         return None
     return make, check
 
@@ -223,6 +239,9 @@ SCENARIOS = {
     "matching+non-matching": scenario([[("x.1", "a1")], [("y.2", "b1"), ("y.2", "b2")]], "x.*"),
     "exact-name-subscriber/new-channel": scenario([[("x.1", "a1"), ("x.1", "a2")], [("x.1", "b1")]], "x.1"),
     "wildcard-over-two-new-channels": scenario([[("x.1", "a1"), ("x.2", "a2")], [("x.2", "b1")]], "x.*"),
+    # two consumers with overlapping patterns on one channel that already holds messages: each message goes to exactly one of them
+    "two-subscribers/prefilled-channel": scenario([], "x.*", prefill=(("x.1", "m1"), ("x.1", "m2"), ("x.1", "m3")), more_subscribers=("x.1",)),
+    "two-subscribers+publisher": scenario([[("x.1", "a1"), ("x.1", "a2")]], "x.*", prefill=(("x.1", "m1"),), more_subscribers=("x.?",)),
 }
 only = req.get("scenario")
 for name, (make, check) in SCENARIOS.items():
@@ -232,7 +251,7 @@ for name, (make, check) in SCENARIOS.items():
     if len(samples) < 2:
         samples.append({"scenario": name, "schedules_so_far": evaluations})
 
-print(json.dumps({"bound": "5 scenarios x schedules at line granularity of in_memory.py (incl. the defaultdict factory), preemption bound %d, <= %d schedules per scenario, subscriber drains twice + final drain" % (3 if thorough else 2, 6000 if thorough else 600),
+print(json.dumps({"bound": "7 scenarios (five with 2 publishers + 1 subscriber, two with 2 overlapping subscribers on a pre-filled channel) x schedules at line granularity of in_memory.py (incl. the defaultdict factory), preemption bound %d, <= %d schedules per scenario, subscriber drains twice + final drain" % (3 if thorough else 2, 6000 if thorough else 600),
                   "evaluations": evaluations, "distinct_nontrivial": len(distinct),
                   "rule": "distinct = (scenario, schedule as the sequence of thread choices at traced lines)",
                   "failures": failures[:20], "samples": samples}, default=str))
